@@ -65,4 +65,17 @@ CHECKS["C15"] = {
             "with real hashes on the real code.",
     "note": TRUST + "Primitives are arbitrary functions; their bit-level correctness (OpenSSL) is trusted. QUIC key schedules are covered once the QUIC harness is in place (see DESIGN.md).",
 }
+CHECKS["C13"] = {
+    "technique": "self-composition under symbolic execution: each TLS scenario runs with and without metadata export inside one path and z3 compares the two outputs",
+    "text": "For the C01 pipeline scenarios (all versions, every handshake shape, symbolic contents) the packets of the plain export "
+            "appear in the -a export in the same order with the same payloads, every additional packet carries a handshake/CCS/alert "
+            "record or decrypted handshake message of the scenario, and the ClientHello/ServerHello records appear verbatim.",
+    "note": TRUST + "Ideal cryptography / recorder scapy / dpkt model as in C01. TLS half of the property; the QUIC half is added with the QUIC harness (DESIGN.md section 4).",
+}
+CHECKS["C08"] = {
+    "technique": "self-composition under symbolic execution: the pipeline runs on packets[:j] and on all packets with a solver-chosen cut index j; z3 decides the byte-prefix relation",
+    "text": "For the C01 pipeline scenarios, with one record per segment and with records cut into small segments, and for every cut "
+            "index j, the export of the truncated capture is, per direction, a byte-prefix of the export of the full capture.",
+    "note": TRUST + "Models as in C01. TLS half of the property; the QUIC half is added with the QUIC harness.",
+}
 NOT_APPLICABLE = {}
